@@ -9,6 +9,7 @@ import Proofs.C06.TwoErr
 import Proofs.C06.KeyText
 import Proofs.C06.SubString
 import Proofs.C06.RefEquiv
+import Proofs.C06.Slip132
 /-!
 # C06 — text encodings and addresses round-trip and accept exactly what the specs accept
 
@@ -319,5 +320,18 @@ theorem xkey_text_roundtrip (H : Bytes → Bytes) (hH : ∀ x, (H x).length = 32
     KeyText.xkeyDecode H (KeyText.xkeyEncode H k) = .ok k ∧
       (KeyText.xkeyEncode H k).length ≤ Gen.Base58.MAX_LENGTH :=
   KeyText.xkey_roundtrip H hH k hv
+
+/-! ## SLIP132 version ↔ script type (table generated from `network.py`) -/
+open Btc.Slip132 Gen.Net in
+/-- T6 (SLIP132): an extended-key version has exactly one meaning (script type, private/public, main/test);
+    the version `p2pkh_xkey / p2wpkh_xkey / p2wpkh_p2sh_xkey` give a child keeps the parent's privacy and
+    network type and commits to the requested script type; and the address written from a PUBLIC child of
+    type k is of type k — a public parent never receives another type's public version. -/
+theorem slip132_version_commits_to_type :
+    (∀ a ∈ SLIP132, ∀ b ∈ SLIP132, a.1 = b.1 → a = b) ∧
+    (∀ p ∈ SLIP132, ∀ k, k < 5 → ∃ v, versionFor p.1 k = some v ∧ info v = some (k, p.2.2.1, p.2.2.2)) ∧
+    (∀ p ∈ SLIP132, p.2.2.1 = false → ∀ k, k < 3 → ∃ v, versionFor p.1 k = some v ∧ addressKind v = some k) ∧
+    (∀ n ∈ NETWORKS, ∀ v ∈ n.xprv ++ n.xpub, ∃ i, info v = some i ∧ i.2.2 = n.isMain) :=
+  ⟨version_unique, versionFor_spec, addressKind_versionFor, table_covers_networks⟩
 
 end Props.C06
